@@ -84,7 +84,9 @@ class Recorder:
             wit = None
             if w is not None:
                 try:
-                    wit = jsonable(w(CompleteEnv(v.env or {})))
+                    cenv = CompleteEnv(v.env or {})
+                    cenv.pc = s._pc()
+                    wit = jsonable(w(cenv))
                 except Exception as e:
                     wit = dict(witness_error=repr(e), tb=traceback.format_exc()[-800:])
             s.violations.append(dict(case=s.case, obligation=v.name, detail=v.detail, key=(classify or key or v.name), witness=wit,
@@ -147,7 +149,9 @@ class Recorder:
                 wit = None
                 if s.witness is not None:
                     try:
-                        wit = jsonable(s.witness(CompleteEnv(env)))
+                        cenv = CompleteEnv(env)
+                        cenv.pc = pc
+                        wit = jsonable(s.witness(cenv))
                     except Exception as e:
                         wit = dict(witness_error=repr(e))
                 tb = ob[2]
